@@ -800,6 +800,38 @@ def sp_path_exists(it, fr, path):
     return fs.files.get(key) is not None
 
 
+# pathlib I/O methods go through the same in-memory file system
+import pathlib as _pl
+
+
+def _pl_write(binary):
+    def w(it, fr, path, data, *a, **kw):
+        f = sp_open(it, fr, str(path), 'wb' if binary else 'w', **({} if binary else {'encoding': kw.get('encoding') or (a[0] if a else None) or 'utf-8'}))
+        try:
+            return file_method(it, fr, f, 'write', [data], {})
+        finally:
+            file_method(it, fr, f, 'close', [], {})
+    return w
+
+
+def _pl_read(binary):
+    def r(it, fr, path, *a, **kw):
+        f = sp_open(it, fr, str(path), 'rb' if binary else 'r')
+        try:
+            return file_method(it, fr, f, 'read', [], {})
+        finally:
+            file_method(it, fr, f, 'close', [], {})
+    return r
+
+
+SPECIAL_METHODS[_pl.Path.write_bytes] = _pl_write(True)
+SPECIAL_METHODS[_pl.Path.write_text] = _pl_write(False)
+SPECIAL_METHODS[_pl.Path.read_bytes] = _pl_read(True)
+SPECIAL_METHODS[_pl.Path.read_text] = _pl_read(False)
+SPECIAL_METHODS[_pl.Path.open] = lambda it, fr, path, mode='r', *a, **kw: sp_open(it, fr, str(path), mode, *a, **kw)
+SPECIAL_METHODS[_pl.Path.exists] = lambda it, fr, path, *a, **kw: sp_path_exists(it, fr, str(path))
+SPECIAL_METHODS[_pl.Path.is_file] = lambda it, fr, path, *a, **kw: sp_path_exists(it, fr, str(path))
+
 import os as _os
 SPECIAL[_os.stat] = sp_os_stat
 SPECIAL[_os.path.exists] = sp_path_exists
